@@ -673,11 +673,22 @@ class Unit:
         self.counts = Counter()
         self.functions = []  # dicts: path, file, line, external, labels
         self.dropped = []    # human readable list of what the extraction dropped
+        self.lost = {}       # functions / arms whose extraction failed (anchor lost): emitted without body resp. left out; name -> reason
         self.diffs = {}
         self.unit_rewrites = []
         self.unit_method_shims = []
         self.unit_call_repl = []
         self.unit_sig_rewrites = []
+
+    def _snapshot(self):
+        po = getattr(self.counts, "per_owner", {})
+        return (len(self.lines), len(self.origin), len(self.functions), len(self.dropped), dict(self.counts), {k: dict(v) for k, v in po.items()}, dict(self.diffs))
+
+    def _restore(self, snap):
+        (nl, no, nf, nd, counts, po, diffs) = snap
+        del self.lines[nl:]; del self.origin[no:]; del self.functions[nf:]; del self.dropped[nd:]
+        self.counts.clear(); self.counts.update(counts); self.counts.per_owner = po; self.counts.owner = None
+        self.diffs = diffs
 
     def emit(self, text, owner, label, kind, src=None):
         for ln in text.split("\n"):
@@ -752,7 +763,14 @@ class Unit:
                 # options whose value contains blanks are written between backticks: params=`a: T, b: U` ret=`R`
                 qopts = ["%s=%s" % (mq.group(1), mq.group(2)) for mq in re.finditer(r"(\w+)=`(.*?)`", ln)]
                 plain = re.sub(r"\w+=`.*?`", "", ln)[3:].split()
-                self._do_arm(plain[1], plain[2], plain[3], plain[4:] + qopts, block)
+                snap = self._snapshot()
+                try:
+                    self._do_arm(plain[1], plain[2], plain[3], plain[4:] + qopts, block)
+                except AnchorLost as e:
+                    # the extraction failure stays local: the arm is left out (nothing calls an arm), the rest of the unit is verified, and the runner reports the
+                    # properties that depend on this arm as undecided
+                    self._restore(snap)
+                    self.lost["arm:" + plain[3]] = dict(reason=str(e), labels=sorted(set(x.strip() for _l, bl in block for m in re.finditer(r"\[((?:C\d+\.[^\],]+(?:,\s*)?)+)\]", bl) for x in m.group(1).split(","))))
                 i = j + 1
                 raw_label = None
                 continue
@@ -763,7 +781,17 @@ class Unit:
                     block.append((j + 1, vc[j])); j += 1
                 if j >= len(vc):
                     raise AnchorLost("%s:%d: //@fn without //@end" % (self.vc_path, i + 1))
-                self._do_fn(parts[1], parts[2], parts[3:], block)
+                snap = self._snapshot()
+                try:
+                    self._do_fn(parts[1], parts[2], parts[3:], block)
+                except AnchorLost as e:
+                    if "external" in parts[3:]:
+                        raise
+                    # the extraction failure stays local: the function is emitted with its contract and WITHOUT its body (trusted, like an external), so that its callers
+                    # and the rest of the unit are still verified; the runner reports the properties that depend on it as undecided
+                    self._restore(snap)
+                    self._do_fn(parts[1], parts[2], parts[3:] + ["external"], block)
+                    self.lost[parts[2]] = dict(reason=str(e), labels=sorted(set(x.strip() for _l, bl in block for m in re.finditer(r"\[((?:C\d+\.[^\],]+(?:,\s*)?)+)\]", bl) for x in m.group(1).split(","))))
                 i = j + 1
                 raw_label = None
                 continue
